@@ -232,7 +232,7 @@ pub fn hash_iter_strategy() -> BoxedStrategy<HiCase> {
 #[derive(Clone, Debug, Serialize, Deserialize)]
 pub struct DcCase {
     /// 0 Bloom::with_properties, 1 Cuckoo::with_properties_4, 2 Cuckoo::with_properties_8, 3 CountMinSketch::with_point_query_properties,
-    /// 4 Bloom::with_params, 5 Cuckoo::with_params, 6 CountMinSketch::with_params
+    /// 4 Bloom::with_params, 5 Cuckoo::with_params, 6 CountMinSketch::with_params, 7 QuotientFilter::with_params
     pub which: u8,
     pub n: usize,
     pub p: f64,
@@ -259,7 +259,7 @@ impl Check for DefaultCtors {
         let bh = BuildHasherDefault::<DefaultHasher>::default();
         let keys: Vec<u64> = (0..c.n.min(300) as u64).map(|i| mix(c.seed, i)).collect();
         let probes: Vec<u64> = (0..300u64).map(|i| mix(c.seed ^ 0x77, i)).collect();
-        let which = c.which % 7;
+        let which = c.which % 8;
         let r = catch(|| -> Result<(), (String, String)> {
             match which {
                 0 | 4 => {
@@ -312,6 +312,30 @@ impl Check for DefaultCtors {
                         return Err(("cuckoo:default-ctor-behaviour".into(), format!("query({}) differs between the two constructors", x)));
                     }
                 }
+                7 => {
+                    use pdatastructs::filters::quotientfilter::QuotientFilter;
+                    let q = 1 + c.a % 8;
+                    let r = 1 + c.n % (64 - q);
+                    let mut f1: QuotientFilter<u64> = QuotientFilter::with_params(q, r);
+                    let mut f2: QuotientFilter<u64> = QuotientFilter::with_params_and_hash(q, r, bh.clone());
+                    for f in [&f1, &f2] {
+                        if (f.bits_quotient(), f.bits_remainder()) != (q, r) {
+                            return Err(("quotient:getters".into(), format!("with_params({}, {}) reports bits_quotient/bits_remainder = {}/{}", q, r, f.bits_quotient(), f.bits_remainder())));
+                        }
+                    }
+                    for x in &keys {
+                        let (r1, r2) = (f1.insert(x), f2.insert(x));
+                        if r1.is_ok() != r2.is_ok() || r1.ok() != r2.ok() {
+                            return Err(("quotient:default-ctor-behaviour".into(), format!("insert({}) outcomes differ between the two constructors", x)));
+                        }
+                    }
+                    if f1.len() != f2.len() {
+                        return Err(("quotient:default-ctor-behaviour".into(), format!("len() {} vs {}", f1.len(), f2.len())));
+                    }
+                    if let Some(x) = keys.iter().chain(probes.iter()).find(|x| f1.query(x) != f2.query(x)) {
+                        return Err(("quotient:default-ctor-behaviour".into(), format!("query({}) differs between the two constructors", x)));
+                    }
+                }
                 _ => {
                     let (mut s1, mut s2): (CountMinSketch<u64>, CountMinSketch<u64>) = if which == 3 {
                         (CountMinSketch::with_point_query_properties(c.p, 1.0 / (2.0 + c.a as f64)), CountMinSketch::with_point_query_properties_and_hasher(c.p, 1.0 / (2.0 + c.a as f64), bh.clone()))
@@ -339,7 +363,7 @@ impl Check for DefaultCtors {
         match r {
             Err(p) => fail(format!("default-ctor-{}", panic_sig(&p)), format!("{:?}: {}", c, p)),
             Ok(Err((sig, msg))) => fail(sig, format!("{} — {:?}", msg, c)),
-            Ok(Ok(())) => Verdict::Pass(Info::new(!keys.is_empty(), hash_json(c)).class(["bloom_props", "cuckoo4_props", "cuckoo8_props", "cms_props", "bloom_params", "cuckoo_params", "cms_params"][which as usize])),
+            Ok(Ok(())) => Verdict::Pass(Info::new(!keys.is_empty(), hash_json(c)).class(["bloom_props", "cuckoo4_props", "cuckoo8_props", "cms_props", "bloom_params", "cuckoo_params", "cms_params", "quotient_params"][which as usize])),
         }
     }
 }
